@@ -40,3 +40,15 @@ from props_tm import TmProp  # noqa: E402
 
 _reg(TmProp('C11', ['Ea.C11.reachable_inv', 'Ea.C11.at_most_one', 'Ea.C11.tstep_inv', 'Ea.C11.fifo', 'Ea.C11.dedup_newest', 'Ea.C11.submit_inv', 'Ea.C11.doneCb_inv'], ['sequential', 'limseq', 'dedup']))
 _reg(TmProp('C12', ['Ea.C12.bound', 'Ea.C12.skip_closes', 'Ea.C12.cancel_first_oldest', 'Ea.C12.cancel_last_newest', 'Ea.C12.slot_freed', 'Ea.C12.unbounded_starts_and_tracks'], ['parallel', 'limpar']))
+
+from props_filter import FilterProp  # noqa: E402
+
+_reg(FilterProp(['Ea.C17.any_iff', 'Ea.C17.all_iff', 'Ea.C17.not_iff', 'Ea.C17.time_iff', 'Ea.C17.dow_iff', 'Ea.C17.dom_iff',
+                 'Ea.C17.moy_iff', 'Ea.C17.filters_local', 'Ea.C17.wrapped_range_mem', 'Ea.C17.single_int_range',
+                 'Ea.C17.empty_rejected', 'Ea.C17.day_names_table', 'Ea.C17.month_names_table', 'Ea.C17.name_tables_in_range']))
+
+from props_when import WhenProp  # noqa: E402
+
+_reg(WhenProp(['Ea.C19.instant_simple', 'Ea.C19.instant_naive', 'Ea.C19.instant_time',
+               'Ea.C19.instant_time_raises_when_ambiguous_today', 'Ea.C19.reject_nonpositive', 'Ea.C19.reject_past',
+               'Ea.C19.past_tolerance_matches']))
